@@ -71,7 +71,8 @@ class Check:
         if not ok:
             self.findings.append(Finding(self.prop, rule, func, construct, what or ('%s fails at %s' % (rule, construct)),
                                          detail, span, undischarged))
-        if sample or (not ok and len(self.samples) < 40) or len(self.samples) < 6:
+        per_rule = sum(1 for x in self.samples if x['rule'] == rule)
+        if sample or (not ok and len(self.samples) < 60) or per_rule < 3:
             self.samples.append(dict(rule=rule, function=func, construct=construct,
                                      location=('%s:%s' % (span.get('file'), span.get('line'))) if span else None,
                                      verdict='PASS' if ok else ('UNDISCHARGED' if undischarged else 'VIOLATION'),
